@@ -1080,3 +1080,142 @@ func c12r12(rc *core.RC) {
 		rc.Unknown("decoder/stream-rewinds", token.NoPos, "no assignment of zero to Stream.cursor or Stream.length found (confirmed: Stream.reset)")
 	}
 }
+
+// ---- C12.R13 nothing in front of the cursor is rewritten in the stream window ----
+
+// A json.Number handed out by Token (UseNumber) and the strings a callback kept are views of the stream window. They
+// lie in front of the cursor. The window is rewritten in place only at the token being decoded: an escape sequence
+// is replaced by its character at the cursor and the rest of the window is moved up to it. Every write into the
+// window therefore starts at the cursor or one byte in front of it (the backslash): a copy destination, the base of
+// an append and an element store on Stream.buf are evaluated as linear forms, and the first byte written has to be
+// cursor-1 or later. Closing the gap the other way round (moving the scanned head one byte up and re-slicing the
+// window) yields the same window-relative indices and rewrites everything handed out before.
+func c12r13(rc *core.RC) {
+	p := rc.P
+	pk := p.Pkg("decoder")
+	if pk == nil {
+		rc.Unknown("decoder", token.NoPos, "package not found")
+		return
+	}
+	info := pk.TypesInfo
+	isWindow := func(e ast.Expr) bool {
+		f := core.FieldOf(info, e)
+		if f == nil || f.Name() != "buf" {
+			return false
+		}
+		sel, ok := core.Unparen(e).(*ast.SelectorExpr)
+		if !ok {
+			return false
+		}
+		return strings.HasSuffix(strings.TrimPrefix(info.TypeOf(sel.X).String(), "*"), "decoder.Stream")
+	}
+	n := 0
+	for _, fd := range p.Funcs("decoder") {
+		if fd.Body == nil {
+			continue
+		}
+		name := p.FuncName(fd)
+		le := &core.LinearEval{Info: info, Pkg: pk, Body: fd.Body}
+		cursorAtoms := map[string]bool{}
+		ast.Inspect(fd.Body, func(m ast.Node) bool {
+			switch x := m.(type) {
+			case *ast.Ident:
+				if isCursorExpr(x) {
+					cursorAtoms[x.Name] = true
+				}
+			case *ast.SelectorExpr:
+				if x.Sel.Name == "cursor" {
+					cursorAtoms[types.ExprString(x)] = true
+				}
+			}
+			return true
+		})
+		// first byte written >= cursor-1
+		fromCursor := func(lo core.Linear) bool {
+			if !lo.OK {
+				return false
+			}
+			nz := nonzeroTerms(lo)
+			return len(nz) == 1 && cursorAtoms[nz[0]] && lo.Terms[nz[0]] == 1 && lo.Const >= -1
+		}
+		k := 0
+		report := func(pos token.Pos, what string, lo core.Linear, fresh bool) {
+			k++
+			n++
+			rc.Touch(name)
+			key := fmt.Sprintf("%s/window-write#%d starts-at-the-cursor", name, k)
+			if fresh {
+				rc.OK(key, pos, "%s: the window was allocated in the statement before", what)
+				return
+			}
+			rc.Check(fromCursor(lo), key, pos, "%s writes into the stream window from offset %s on: the first byte written has to be the one in front of the cursor or later; what lies further in front (numbers handed out by Token with UseNumber, texts a callback kept) is a view of this memory and would change under its holder", what, lo)
+		}
+		// s.buf = make(...) directly in front of stmt
+		freshBefore := func(st ast.Node) bool {
+			path := core.PathTo(fd.Body, st)
+			for i := len(path) - 2; i >= 0; i-- {
+				blk, ok := path[i].(*ast.BlockStmt)
+				if !ok {
+					continue
+				}
+				for j, s2 := range blk.List {
+					if ast.Node(s2) != path[i+1] || j == 0 {
+						continue
+					}
+					if as, ok := blk.List[j-1].(*ast.AssignStmt); ok && len(as.Lhs) == 1 && len(as.Rhs) == 1 && isWindow(as.Lhs[0]) {
+						if c, ok := core.Unparen(as.Rhs[0]).(*ast.CallExpr); ok && core.IsBuiltin(info, c, "make") {
+							return true
+						}
+					}
+				}
+				break
+			}
+			return false
+		}
+		ast.Inspect(fd.Body, func(m ast.Node) bool {
+			switch x := m.(type) {
+			case *ast.CallExpr:
+				switch {
+				case core.IsBuiltin(info, x, "copy") && len(x.Args) == 2:
+					dst := core.Unparen(x.Args[0])
+					if isWindow(dst) {
+						var stmt ast.Node = x
+						for _, pn := range core.PathTo(fd.Body, x) {
+							if es, ok := pn.(*ast.ExprStmt); ok {
+								stmt = es
+							}
+						}
+						report(x.Pos(), "copy(s.buf, …)", core.LinConst(0), freshBefore(stmt))
+					} else if se, ok := dst.(*ast.SliceExpr); ok && isWindow(se.X) {
+						lo := core.LinConst(0)
+						if se.Low != nil {
+							lo = le.Eval(se.Low)
+						}
+						report(x.Pos(), "copy("+core.Src(p.Fset, dst)+", …)", lo, false)
+					}
+				case core.IsBuiltin(info, x, "append") && len(x.Args) > 0:
+					base := core.Unparen(x.Args[0])
+					if isWindow(base) {
+						report(x.Pos(), "append(s.buf, …)", le.Eval(&ast.CallExpr{Fun: ast.NewIdent("len"), Args: []ast.Expr{base}}), false)
+					} else if se, ok := base.(*ast.SliceExpr); ok && isWindow(se.X) {
+						var hi core.Linear
+						if se.High != nil {
+							hi = le.Eval(se.High)
+						}
+						report(x.Pos(), "append("+core.Src(p.Fset, base)+", …)", hi, false)
+					}
+				}
+			case *ast.AssignStmt:
+				for _, l := range x.Lhs {
+					if ix, ok := core.Unparen(l).(*ast.IndexExpr); ok && isWindow(ix.X) {
+						report(x.Pos(), core.Src(p.Fset, l)+" = …", le.Eval(ix.Index), false)
+					}
+				}
+			}
+			return true
+		})
+	}
+	if n < 8 {
+		rc.Unknown("decoder/window-writes", token.NoPos, "found %d in-place writes into Stream.buf (confirmed: 11)", n)
+	}
+}
